@@ -137,6 +137,67 @@ var timerShapes = []struct {
 
 // timerJitter: the shape with ttl 6 runs with a jitter bound of 0.1: the drawn jitter reaches the real queue
 // (lifetime in (5,6] s, ratio in [0.4, 0.6]: delay in (2, 3.6] s, grace > 2 s)
+// timerThree: `rt3 <shortTTL>` - three certificates on the real queue, the LAST with the shortest lifetime: certificate
+// (ttl 9 s), bundle update, certificate (9 s), bundle update, certificate (<shortTTL> s), ratio 1/2.  The third task is
+// due first (1-1.5 s) while Run already waits for the first (4-4.5 s): Run must re-arm.  It must run before the expiry
+// of its certificate (2-3 s); the two older tasks are stale no-ops.
+func timerThree(t []string) (string, bool) {
+	short, err := strconv.Atoi(t[1])
+	if err != nil || short < 3 || short > 5 {
+		return "bad-op", true
+	}
+	s := newSUT(0.5, 0, false)
+	defer s.close()
+	fq := &fwdQueue{inner: queue.NewDelayed(queue.DelayQueueBuffer(0))}
+	stop := make(chan struct{})
+	defer close(stop)
+	go fq.Run(stop)
+	nacache.VerifSetQueue(s.sc, fq)
+	var evs []string
+	collect := func() { evs = append(evs, strings.ReplaceAll(s.takeEvents(), "-", "")) }
+	fail := ""
+	gen := func(ttl int) {
+		s.ca.next = caOutcome{kind: "ok", ttl: time.Duration(ttl) * time.Second, signer: 'A', bundle: "-"}
+		if _, err := s.sc.GenerateSecret(security.WorkloadKeyCertResourceName); err != nil && fail == "" {
+			fail = "gen-error"
+		}
+		if w := nacache.VerifCachedWorkload(s.sc); w != nil {
+			fq.setExpiry(leafNotAfter(w))
+		}
+		collect()
+	}
+	gen(9)
+	s.updateBundle([]byte(strings.Join(bundlePEMs("B"), "")))
+	collect()
+	gen(9)
+	s.updateBundle([]byte(strings.Join(bundlePEMs("C"), "")))
+	collect()
+	gen(short)
+	if fq.ranCount() != 0 {
+		return "inconclusive", false
+	}
+	if fq.dueAfterExpiry() {
+		return "scheduled-after-expiry", true
+	}
+	deadline := time.Now().Add(30 * time.Second)
+	for !fq.allRan(3) {
+		if time.Now().After(deadline) {
+			if fail == "" {
+				fail = "timeout"
+			}
+			break
+		}
+		time.Sleep(5 * time.Millisecond)
+	}
+	time.Sleep(50 * time.Millisecond)
+	collect()
+	gen(9)
+	if fail != "" {
+		return fail, true
+	}
+	return fmt.Sprintf("ev=%s calls=%d early=%s late=%s", strings.Join(evs, ""), s.ca.calls(), wire.B(fq.early()), wire.B(fq.late())), !fq.late()
+}
+
 func timerJitter(ttl int) float64 {
 	if ttl == 6 {
 		return 0.1
@@ -151,13 +212,24 @@ func genTimer(seed uint64, n int, path string) {
 	for i := 0; i < n; i++ {
 		r := root.Fork()
 		out.Line("case", strconv.Itoa(i), "timer")
+		if i == 2 {
+			out.Line("rt3", "3") // three pending tasks, the last one due first
+			continue
+		}
+		if i == 3 || i == 4 {
+			// one fresh and one stale scenario in every run, whatever the seed
+			sh := wire.Pick(r, timerShapes)
+			rn, rd := ratTokens(sh.ratio)
+			out.Line("rt", strconv.Itoa(sh.ttl), rn, rd, wire.B(i == 4))
+			continue
+		}
 		if i == 1 {
 			// the client's own queue, delay 0: the order store-then-push under a real race
 			out.Line("rz", map[bool]string{true: "1500", false: "40000"}[n <= 100])
 			continue
 		}
 		if i == 0 {
-			iters := 100000
+			iters := 60000
 			if n > 100 {
 				iters = 2000000
 			}
@@ -287,10 +359,149 @@ func runRZ(t []string) string {
 			<-cb
 		}
 	}
+	statf("rz rotations=%d lost=%d", n, lost)
 	return fmt.Sprintf("lost-rotations=%d", lost)
 }
 
-const qsClean = "lost=0 burst:lost-delayed=0,lost=0,early=0"
+// queuePairs: third shape - a zero-delay task handed to the parked Run, followed back to back by a second one while
+// Run is busy with the first: the second takes pushInternal's fallback branch (heap push, then wake).  If Run is woken
+// before the task is on the heap it finds nothing and parks again.  Returns how many tasks never ran within 2 s.
+func queuePairs(n int) int64 {
+	var lost int64
+	var wg sync.WaitGroup
+	sem := make(chan struct{}, 8)
+	for i := 0; i < n; i++ {
+		wg.Add(1)
+		sem <- struct{}{}
+		go func(i int) {
+			defer wg.Done()
+			defer func() { <-sem }()
+			q := queue.NewDelayed(queue.DelayQueueBuffer(0))
+			stop := make(chan struct{})
+			defer close(stop)
+			go q.Run(stop)
+			t0 := time.Now()
+			for time.Since(t0) < time.Duration(40+i%9)*time.Microsecond { // let Run park
+			}
+			var ran int64
+			done := make(chan struct{}, 5)
+			f := func() error { atomic.AddInt64(&ran, 1); done <- struct{}{}; return nil }
+			want := 2 + (1 - i%2)
+			if i%4 >= 2 {
+				// two more pushers at the same moment: fallback pushes that contend for the heap's mutex
+				// with each other and with Run (a pusher that signals before it holds the mutex loses its task here)
+				want += 2
+				for k := 0; k < 2; k++ {
+					go q.PushDelayed(f, 0)
+				}
+			}
+			q.PushDelayed(f, 0)
+			q.PushDelayed(f, 0)
+			if i%2 == 0 {
+				q.PushDelayed(f, 0)
+			}
+			deadline := time.After(2 * time.Second)
+			for k := 0; k < want; k++ {
+				select {
+				case <-done:
+				case <-deadline:
+					atomic.AddInt64(&lost, int64(want)-atomic.LoadInt64(&ran))
+					return
+				}
+			}
+		}(i)
+	}
+	wg.Wait()
+	return lost
+}
+
+// queueFarNear: fourth shape - two tasks far away (1.2 s, 1.3 s), then one near (50 ms), pushed while Run waits for the
+// first: Run must re-arm for the earliest task.  The near task must run first and well before the far ones are due.
+// Returns (near tasks that ran after a far one or later than 1 s, tasks that never ran within 5 s).
+func queueFarNear(reps int) (misordered, lost int64) {
+	var wg sync.WaitGroup
+	for i := 0; i < reps; i++ {
+		wg.Add(1)
+		go func(i int) {
+			defer wg.Done()
+			q := queue.NewDelayed(queue.DelayQueueBuffer(0))
+			stop := make(chan struct{})
+			defer close(stop)
+			go q.Run(stop)
+			time.Sleep(time.Duration(300+50*(i%4)) * time.Microsecond)
+			var mu sync.Mutex
+			var order []int
+			done := make(chan struct{}, 3)
+			task := func(id int) func() error {
+				return func() error { mu.Lock(); order = append(order, id); mu.Unlock(); done <- struct{}{}; return nil }
+			}
+			start := time.Now()
+			q.PushDelayed(task(1), 1200*time.Millisecond)
+			q.PushDelayed(task(2), 1300*time.Millisecond)
+			time.Sleep(time.Duration(1+i%3) * time.Millisecond)
+			q.PushDelayed(task(0), 50*time.Millisecond)
+			nearAt := time.Duration(0)
+			for k := 0; k < 3; k++ {
+				select {
+				case <-done:
+					mu.Lock()
+					if order[len(order)-1] == 0 {
+						nearAt = time.Since(start)
+					}
+					mu.Unlock()
+				case <-time.After(5 * time.Second):
+					atomic.AddInt64(&lost, 1)
+					return
+				}
+			}
+			mu.Lock()
+			defer mu.Unlock()
+			if order[0] != 0 || nearAt > time.Second {
+				atomic.AddInt64(&misordered, 1)
+			}
+		}(i)
+	}
+	wg.Wait()
+	return misordered, lost
+}
+
+// queueRetry: the worker's retry path - a task that fails twice and then succeeds runs three times; a task that
+// always fails runs 1 + maxTaskRetry = 4 times and is dropped.  Returns the number of repetitions that saw other counts.
+func queueRetry(reps int) int64 {
+	var bad int64
+	var wg sync.WaitGroup
+	for i := 0; i < reps; i++ {
+		wg.Add(1)
+		go func() {
+			defer wg.Done()
+			q := queue.NewDelayed(queue.DelayQueueBuffer(0))
+			stop := make(chan struct{})
+			defer close(stop)
+			go q.Run(stop)
+			time.Sleep(300 * time.Microsecond)
+			var a, b int64
+			q.PushDelayed(func() error {
+				if atomic.AddInt64(&a, 1) < 3 {
+					return fmt.Errorf("not yet")
+				}
+				return nil
+			}, 0)
+			q.PushDelayed(func() error { atomic.AddInt64(&b, 1); return fmt.Errorf("never") }, time.Millisecond)
+			deadline := time.Now().Add(3 * time.Second)
+			for (atomic.LoadInt64(&a) < 3 || atomic.LoadInt64(&b) < 4) && time.Now().Before(deadline) {
+				time.Sleep(time.Millisecond)
+			}
+			time.Sleep(30 * time.Millisecond)
+			if atomic.LoadInt64(&a) != 3 || atomic.LoadInt64(&b) != 4 {
+				atomic.AddInt64(&bad, 1)
+			}
+		}()
+	}
+	wg.Wait()
+	return bad
+}
+
+const qsClean = "lost=0 burst:lost-delayed=0,lost=0,early=0 pairs:lost=0 far-near:misordered=0,lost=0 retry:bad=0"
 
 func runQS(t []string) string {
 	if len(t) != 3 {
@@ -303,25 +514,41 @@ func runQS(t []string) string {
 	}
 	reps := n / 4000
 	ld, lb, early := queueBurst(reps, 20)
-	return fmt.Sprintf("lost=%d burst:lost-delayed=%d,lost=%d,early=%d", queueStress(n, spin), ld, lb, early)
+	mis, fl := queueFarNear(12)
+	statf("qs singles=%d pairs=%d burst-reps=%d far-near-reps=12 retry-reps=8", n, n, reps)
+	return fmt.Sprintf("lost=%d burst:lost-delayed=%d,lost=%d,early=%d pairs:lost=%d far-near:misordered=%d,lost=%d retry:bad=%d",
+		queueStress(n, spin), ld, lb, early, queuePairs(n), mis, fl, queueRetry(8))
 }
 
 // runTimerCase plays one scenario. The result is a function of the scenario only, provided the
 // sequential prefix finishes before the first task is due (> 1 s, see timerShapes); if the machine
 // stalled for longer than that the attempt is discarded and repeated.
+// runTimerCase: an attempt is inconclusive when the machine stalled during the sequential prefix, or when a task ran
+// after the expiry of its certificate (grace > 1 s).  A single late attempt may be a stall of the machine; lateness in
+// two attempts is reported (a queue that serves the wrong head is late most of the time, not always).
 func runTimerCase(t []string) string {
-	r := "bad-op"
+	r, lateRuns, lateLine := "bad-op", 0, ""
 	for attempt := 0; attempt < 6; attempt++ {
 		var conclusive bool
 		r, conclusive = timerAttempt(t)
 		if conclusive {
 			break
 		}
+		if strings.Contains(r, "late=1") {
+			lateRuns++
+			lateLine = r
+			if lateRuns >= 2 {
+				return lateLine
+			}
+		}
 	}
 	return r
 }
 
 func timerAttempt(t []string) (string, bool) {
+	if len(t) == 2 && t[0] == "rt3" {
+		return timerThree(t)
+	}
 	if len(t) != 5 {
 		return "bad-op", true
 	}
@@ -412,7 +639,7 @@ func execTimer(in, outp string) {
 			res[i] = runRZ(t)
 			continue
 		}
-		if t[0] != "rt" {
+		if t[0] != "rt" && t[0] != "rt3" {
 			res[i] = "ok"
 			if t[0] != "case" {
 				res[i] = "bad-op"
@@ -446,7 +673,7 @@ func oracleTimer(in, outp string) {
 	defer out.Close()
 	var lines [][]string
 	for _, t := range wire.ReadLines(in) {
-		if t[0] == "qs" || t[0] == "rt" || t[0] == "rz" {
+		if t[0] == "qs" || t[0] == "rt" || t[0] == "rz" || t[0] == "rt3" {
 			lines = append(lines, t)
 		}
 	}
@@ -461,8 +688,11 @@ func oracleTimer(in, outp string) {
 			}
 			continue
 		}
-		if t[0] == "qs" { // alone, before the timer cases start
+		if t[0] == "qs" { // alone, before the timer cases start; the exec pass already ran it at full size
 			res[i] = "OK"
+			if n, err := strconv.Atoi(t[1]); err == nil && len(t) == 3 {
+				t = []string{"qs", strconv.Itoa(n / 4), t[2]}
+			}
 			if r := runQS(t); r != qsClean {
 				res[i] = "FAIL queue-task-stranded " + wire.Enc(join(t)) + " " + wire.Enc(r)
 			}
@@ -492,6 +722,9 @@ func timerVerdict(t []string) string {
 	want := 2
 	if len(t) == 5 && t[4] == "1" {
 		want = 3
+	}
+	if t[0] == "rt3" {
+		want = 4
 	}
 	switch {
 	case r == "scheduled-after-expiry":
